@@ -74,6 +74,18 @@ static Plan c17_gen(uint64_t seed, int tier, uint64_t index) {
 static std::vector<Plan> c17_fixed(int tier) {
     (void) tier;
     std::vector<Plan> v;
+    // long-lived connections: more than 2^16 records in one direction under one traffic key (TLS 1.3: nonce = iv XOR 64-bit sequence number;
+    // TLS 1.2 GCM: explicit 64-bit sequence number)
+    {
+        static const uint16_t S[] = { TLS_AES_128_GCM_SHA256, TLS_CHACHA20_POLY1305_SHA256, TLS_AES_256_GCM_SHA384, TLS_ECDHE_ECDSA_WITH_AES_128_GCM_SHA256 };
+        for (int si = 0; si < 4; si++) { for (int dir = 0; dir < 2; dir++) {
+            if (!tier && ((si + dir) & 1)) { continue; }      // quick: half of the grid
+            Plan p; p.seed = 171000 + (uint64_t) (si * 2 + dir);
+            p.cfg["eng"] = 0; p.cfg["ver"] = si < 3 ? 2 : 1; p.cfg["suite"] = S[si]; p.cfg["sid_kind"] = KK_EC256;
+            p.ops.push_back(Op("hs")); p.ops.push_back(Op("burst", dir, 65536 + 300)); p.ops.push_back(Op("send", 1 - dir, 30)); p.ops.push_back(Op("pump"));
+            v.push_back(p);
+        } }
+    }
     static const uint16_t S13[] = { TLS_AES_128_GCM_SHA256, TLS_AES_256_GCM_SHA384, TLS_CHACHA20_POLY1305_SHA256 };
     for (int su = 0; su < 3; su++) {
         for (int hrr = 0; hrr < 2; hrr++) {
